@@ -108,7 +108,8 @@ T_Exit == /\ IsEvent("exit")
                           ELSE "exit.timer",
                           tmr[t].st = "ended" /\ E.how = "ready")
                 ELSE \* (the state of the loop is judged first: it names what was skipped; then whose turn it was)
-                     /\ G(IF t \in Actor /\ act[t].pc = "idle" /\ act[t].mq = <<>> /\ ~ChanOpen(t) THEN "exit.loop.closed"      \* left without stopped() after the last drop
+                     /\ G(IF t \in Actor /\ IsBrokerType(act[t].ty) /\ act[t].pc \notin {"done", "failed"} THEN "exit.loop.broker"     \* a broker ends only with the process
+                          ELSE IF t \in Actor /\ act[t].pc = "idle" /\ act[t].mq = <<>> /\ ~ChanOpen(t) THEN "exit.loop.closed"      \* left without stopped() after the last drop
                           ELSE IF t \in Actor /\ Leaving(t)
                           THEN (IF act[t].stream THEN "exit.loop.callback.stream"
                                 ELSE IF act[t].jh # "none" THEN "exit.loop.callback.owning" ELSE "exit.loop.callback")
@@ -137,7 +138,9 @@ T_Yield == /\ IsEvent("yield")
 SUT == {a \in Actor : act[a].pc \in {"stopping", "finishing"} /\ act[a].tmo >= 0}
 \* ... or a stream-attached actor that was configured with a handler timeout (which does not apply to it) is handling
 StopCtx == IF \E a \in SUT : act[a].jh # "none" THEN ".stopping.owning" ELSE IF SUT # {} THEN ".stopping"
-           ELSE IF \E a \in Actor : act[a].stream /\ act[a].tmo >= 0 /\ act[a].pc = "handling" THEN ".streamtmo" ELSE ""
+           ELSE IF \E a \in Actor : act[a].stream /\ act[a].tmo >= 0 /\ act[a].pc = "handling" THEN ".streamtmo"
+           \* ... or a sender is waiting for room in a bounded mailbox (a deadline armed around that wait)
+           ELSE IF \E c \in Tasker : cli[c].stage = "flush" THEN ".flushing" ELSE ""
 T_Advance == /\ IsEvent("advance")
              /\ G("adv.free", cur = None)
              /\ G(IF \E i \in DOMAIN tmr : act[tmr[i].a].pc = "failed" THEN "adv.pending.failed"
@@ -181,7 +184,10 @@ ResGuard(op, L) == IF L.a \in Actor /\ act[L.a].pc = "failed"
                          ELSE "oe.res.failed." \o act[L.a].why \o (IF op \in {"await", "await_ref", "halt", "try_halt"} THEN ".await" ELSE "") \o RstStartErr(L.a))
                    ELSE "oe.res." \o op
 \* (a call / ping that comes back with an error although a stop had been accepted only later: C04's drain barrier)
-StopCtx2(op, L) == IF op \in {"call", "ping"} /\ L.a \in Actor /\ hst.stopAcc[L.a] THEN {"C04"} ELSE {}
+StopCtx2(op, L) == IF op \in {"call", "ping"} /\ L.a \in Actor /\ hst.stopAcc[L.a] THEN {"C04"}
+                   \* (C12: "a stop request never waits for mailbox space": a stop / restart request refused on a bounded mailbox)
+                   ELSE IF op \in {"stop", "halt", "try_stop", "try_halt", "restart", "consume", "consume_sync"} /\ L.a \in Actor /\ act[L.a].cap # Unb THEN {"C12"}
+                   ELSE {}
 LastMatchesCtx(op, L, sfx) ==
                       /\ GX(IF sfx # "" THEN "oe.res." \o op \o sfx ELSE ResGuard(op, L), SX(L.a) \cup StopCtx2(op, L), L.res = E.res)
                       /\ G("oe.val." \o op, L.res \notin {"ok", "some"} \/ (L.pos = E.pos /\ L.inst = E.inst))
